@@ -1,6 +1,7 @@
 (* C08 — single-response methods yield exactly one response or an error. *)
 From Coq Require Import ZArith List Bool.
 From Grpchan Require Import model.StreamSeq proofs.StreamSeq model.Framing gen.Wire proofs.C08.
+From Grpchan Require model.HttpClient proofs.HttpClient corr.HttpSched proofs.HttpTrace.
 Import ListNotations.
 Open Scope Z_scope.
 
@@ -26,3 +27,57 @@ Theorem C08_single_request_http : forall m rest e,
   s_fin (server_decode_single size_rejected (enc_frame m ++ rest) e) = STooMany /\
   s_msgs (server_decode_single size_rejected (enc_frame m ++ rest) e) = [].
 Proof. exact C08_second_request. Qed.
+Print Assumptions C08_single_request_http.
+
+(* the HTTP client stream as a concurrent object (model/HttpClient.v: the goroutine of doHttpCall that reads
+   the response body, the caller's RecvMsg with its probe for a second message, the transport releasing
+   frames one at a time and ending the body, in every interleaving): on a single-response method, while the
+   caller's context is live, RecvMsg hands the caller a message x only when the body held exactly the one
+   message x, the reader has finished on a trailer frame that says OK and no error was recorded ... *)
+Theorem C08_http_single_response_exactly_one : forall b0 e0 s rd dn lg x,
+  Grpchan.proofs.HttpClient.hreach false b0 e0 s rd dn lg -> Grpchan.model.HttpClient.cctx s = 0 ->
+  In (Grpchan.model.HttpClient.RMsg x) lg ->
+  Grpchan.proofs.HttpClient.msgs_of lg = [x] /\ Grpchan.proofs.HttpClient.datas rd = [x] /\
+  Grpchan.model.HttpClient.rph s = Grpchan.model.HttpClient.RExit /\
+  Grpchan.model.HttpClient.rErr s = None /\ Grpchan.model.HttpClient.tr s = Some 0.
+Proof. exact Grpchan.proofs.HttpClient.single_response_exactly_one. Qed.
+Print Assumptions C08_http_single_response_exactly_one.
+
+(* ... and never more than one, whatever the server sent *)
+Theorem C08_http_single_response_at_most_one : forall b0 e0 s rd dn lg,
+  Grpchan.proofs.HttpClient.hreach false b0 e0 s rd dn lg -> Grpchan.model.HttpClient.cctx s = 0 ->
+  (length (Grpchan.proofs.HttpClient.msgs_of lg) <= 1)%nat.
+Proof. exact Grpchan.proofs.HttpClient.single_response_at_most_one. Qed.
+Print Assumptions C08_http_single_response_at_most_one.
+
+(* the same on what the real client was OBSERVED to return: a schedule of a single-response call accepted by
+   the correspondence check, in which the caller's context stays live, handed the caller at most one message,
+   and a message x only if the response body starts with frames whose data frames are exactly [x] *)
+Theorem C08_http_accepted_single_response_schedule : forall b0 e0 rounds,
+  HttpSched.accepts_from [Grpchan.model.HttpClient.init false b0 e0] rounds = true ->
+  Forall (fun r : HttpSched.hround => HttpTrace.no_ctx_end (fst r)) rounds ->
+  (length (HttpSched.got_msgs rounds) <= 1)%nat /\
+  forall x, In (Grpchan.model.HttpClient.RMsg x) (HttpSched.all_res rounds) ->
+    HttpSched.got_msgs rounds = [x] /\
+    exists rd rest, b0 = rd ++ rest /\ Grpchan.proofs.HttpClient.datas rd = [x].
+Proof. exact HttpTrace.accepted_single_response_schedule. Qed.
+Print Assumptions C08_http_accepted_single_response_schedule.
+
+(* non-vacuity: one response and an OK trailer is accepted with the message; two responses are accepted only
+   with Internal *)
+Example C08_http_schedules_nonvacuous :
+  HttpSched.accepts_from [Grpchan.model.HttpClient.init false
+      [Grpchan.model.HttpClient.EData 7; Grpchan.model.HttpClient.ETrailer 0] Grpchan.model.HttpClient.EndClean]
+    [(Grpchan.model.HttpClient.Deliver, []); (Grpchan.model.HttpClient.Deliver, []);
+     (Grpchan.model.HttpClient.EndBody, []); (Grpchan.model.HttpClient.Recv, [Grpchan.model.HttpClient.RMsg 7])] = true /\
+  HttpSched.accepts_from [Grpchan.model.HttpClient.init false
+      [Grpchan.model.HttpClient.EData 7; Grpchan.model.HttpClient.EData 8; Grpchan.model.HttpClient.ETrailer 0]
+      Grpchan.model.HttpClient.EndClean]
+    [(Grpchan.model.HttpClient.Deliver, []); (Grpchan.model.HttpClient.Deliver, []); (Grpchan.model.HttpClient.Deliver, []);
+     (Grpchan.model.HttpClient.EndBody, []); (Grpchan.model.HttpClient.Recv, [Grpchan.model.HttpClient.RStatus 13])] = true /\
+  HttpSched.accepts_from [Grpchan.model.HttpClient.init false
+      [Grpchan.model.HttpClient.EData 7; Grpchan.model.HttpClient.EData 8; Grpchan.model.HttpClient.ETrailer 0]
+      Grpchan.model.HttpClient.EndClean]
+    [(Grpchan.model.HttpClient.Deliver, []); (Grpchan.model.HttpClient.Deliver, []); (Grpchan.model.HttpClient.Deliver, []);
+     (Grpchan.model.HttpClient.EndBody, []); (Grpchan.model.HttpClient.Recv, [Grpchan.model.HttpClient.RMsg 7])] = false.
+Proof. vm_compute. auto. Qed.
